@@ -10,5 +10,11 @@ def run(rep, tier, seed):
     lines = domhist.gen(seed, tier)
     vlib.run_stream(rep, "itv-histories", "itvdom", "itvdom", lines, oracle=domhist.oracle,
                     nontrivial=domhist.nontrivial, key=lambda l: "history")
+    # disequalities between two variables (disequality lowering through entailment)
+    lines2 = domhist.gen(seed + 33, tier, opts={"ops": ["bounds", "bounds", "diseq", "diseq", "assign", "arith", "copy", "join", "q_entails"],
+                                                "maxvars": 3, "minops": 4, "maxops": 12, "corpus": False},
+                         n=(500 if tier == "quick" else 15000))
+    vlib.run_stream(rep, "itv-disequalities", "itvdom", "itvdom", lines2, oracle=domhist.oracle_dense,
+                    nontrivial=domhist.nontrivial, key=lambda l: "history")
     import domall
     domall.search(rep, tier, seed, "C03")
